@@ -41,6 +41,11 @@ def gen_scenario(rng, profile=None):
         slow = [{"fn": rng.randrange(3), "arg": 90 + j, "kw": None, "hold": 0.4} for j in range(workers)]
         rest = [dict(rng.choice(pool), **({"cancel": True} if rng.random() < 0.5 else {})) for _ in range(rng.choice([2, 3, 4]))]
         sessions[k] = slow + rest + [dict(rng.choice(pool))]
+    if rng.random() < profile.get("mixed_resolver_p", 0.3) and len(sessions) >= 2:
+        first = rng.random() < 0.5
+        for k, sess in enumerate(sessions):
+            if sess:
+                sess[0] = dict(sess[0], session_resolver=(first if k % 2 == 0 else not first))
     return {"workers": workers, "resolver": rng.random() < 0.3, "block": block,
             "delay": rng.choice([0.0, 0.3, 0.6]), "seed": rng.randrange(1 << 30), "sessions": sessions,
             "perturb": {r: rng.choice([0, 0, 0.2, 0.5]) for r in ("main", "worker", "resolver", "disp")}, "timeout": 60}
